@@ -245,6 +245,40 @@ func init() {
 		r := BVBin(OpBVSRem, ext, d1)
 		return Struct{wall, BVBin(OpBVSub, ext, r), t[2]}
 	})
+	// (Time).Sub of two wall-clock instants (no monotonic reading) with a symbolic second count: the
+	// library's overflow check divides by 10^9 again, which no back end decides; the model computes
+	// (t.sec-u.sec)*10^9 + (t.nsec-u.nsec) when the second difference is within +-9223372035 (exact there),
+	// saturates beyond +-9223372037 as the library does, and gives up in the two boundary seconds.
+	reg("(time.Time).Sub", func(m *Machine, fr *frame, a []Value) Value {
+		t, u := a[0].(Struct), a[1].(Struct)
+		tw, te, uw, ue := t[0].(*Term), t[1].(*Term), u[0].(*Term), u[1].(*Term)
+		if !tw.IsConst() || !uw.IsConst() || tw.C>>30 != 0 || uw.C>>30 != 0 || (te.IsConst() && ue.IsConst()) {
+			return fallThrough
+		}
+		m.stubs["model:time.Time.Sub = (sec diff)*1e9 + nsec diff, saturating"]++
+		// the operands are bounded to +-2^62 so that the difference cannot wrap
+		lim := BV(64, 1<<62)
+		nlim := BV(64, uint64(1<<63|1<<62))
+		for _, e := range []*Term{te, ue} {
+			if !m.decide(And(BVCmp(OpBVSlt, e, lim), BVCmp(OpBVSlt, nlim, e))) {
+				m.unsupported("Time.Sub of an instant beyond +-2^62 seconds")
+			}
+		}
+		sd := BVBin(OpBVSub, te, ue)
+		nd := int64(tw.C) - int64(uw.C)
+		const r = 9223372035
+		if m.decide(And(BVCmp(OpBVSle, BV(64, uint64(^uint64(r)+1)), sd), BVCmp(OpBVSle, sd, BV(64, r)))) {
+			return BVBin(OpBVAdd, BVBin(OpBVMul, sd, BV(64, 1000000000)), BV(64, uint64(nd)))
+		}
+		if m.decide(BVCmp(OpBVSlt, BV(64, r+2), sd)) {
+			return BV(64, 1<<63-1)
+		}
+		if m.decide(BVCmp(OpBVSlt, sd, BV(64, uint64(^uint64(r+2)+1)))) {
+			return BV(64, 1<<63)
+		}
+		m.unsupported("Time.Sub within two seconds of Duration saturation")
+		return nil
+	})
 	reg(vrtPath+".SymbolicClock", func(m *Machine, fr *frame, a []Value) Value { m.opts["symbolic-clock"] = 1; return nil })
 	// timers never fire on their own: time-triggered behaviour is driven explicitly by the harness
 	reg("time.NewTicker", func(m *Machine, fr *frame, a []Value) Value {
@@ -286,8 +320,18 @@ func init() {
 		off := BV(64, 0)
 		if loc, _ := t[2].(*Value); loc != nil {
 			lp := m.global(m.P.pkgs["time"].Var("localLoc"))
-			if loc == lp && m.tzOff != nil {
-				off = m.tzOff
+			if loc == lp {
+				if m.tzOff != nil {
+					off = m.tzOff
+				}
+			} else if ls, ok := (*loc).(Struct); ok && len(ls) >= 2 {
+				// a fixed zone (time.FixedZone): one zone, no transitions; UTC has no zones at all
+				zs, _ := ls[1].([]Value)
+				if len(zs) == 1 {
+					off = zs[0].(Struct)[1].(*Term)
+				} else if len(zs) > 1 {
+					return fallThrough
+				}
 			}
 		}
 		sec := BVBin(OpBVAdd, unix, off)
